@@ -336,8 +336,19 @@ def check(chk):
     rt = cr.methods["_reset_timeouts"]
     chk.analysed(rt)
     spec = units.spec
+    arms = [c for c in rt.calls() if call_attr(c) in ("reset", "add", "add_if_doesnt_exist") and "delay" in src(c.func.value)]
+    names = sorted(const_value(kwarg(c, "name")) or "?" for c in arms)
+    chk.ob("UNIT-7", "both expiry periods are armed by _reset_timeouts", names == ["clear_all_credits", "clear_fractional_credits"], rt.where(), detail=str(names),
+           construct=rt.ident, text="expiry timers armed %s" % names)
+    for c in arms:
+        chk.ob("UNIT-7", "every payment restarts the expiry period `%s` (delay.reset: the period runs from the last coin, not from the first)" % const_value(kwarg(c, "name")),
+               call_attr(c) == "reset", rt.where(c), detail="armed with delay.%s" % call_attr(c), construct=rt.ident,
+               text="expiry %s armed with %s" % (const_value(kwarg(c, "name")), call_attr(c)))
+    callers = [m.name for m in cr.methods.values() if any(call_attr(c) == "_reset_timeouts" for c in m.calls())]
+    chk.ob("UNIT-7", "coins and event credits restart the expiry periods, and the end of a game arms them again", {"_credit_switch_callback", "_credit_event_callback", "_game_ended"} <= set(callers),
+           rt.where(), detail=str(sorted(callers)), construct=rt.ident, text="expiry restart callers")
     for c in rt.calls():
-        if call_attr(c) in ("reset", "add") and "delay" in src(c.func.value):
+        if call_attr(c) in ("reset", "add", "add_if_doesnt_exist") and "delay" in src(c.func.value):
             ms = kwarg(c, "ms")
             key = ms.slice.value if isinstance(ms, ast.Subscript) and isinstance(ms.slice, ast.Constant) else None
             ent = spec.get("credits", {}).get(key) if key else None
@@ -351,6 +362,35 @@ def check(chk):
     rms = {src(c.args[0]) for c in gs.calls() if call_attr(c) == "remove" and "delay" in src(c.func.value) and c.args}
     chk.ob("UNIT-7", "credits do not expire during a game", rms >= {"'clear_fractional_credits'", "'clear_all_credits'"}, gs.where(), detail=str(rms),
            construct=gs.ident, text="expiry paused in game")
+
+    # ------------------------------------------------------------ FLAG-20: the once-per-game tier reset
+    # the tier progress restarts when a game starts (unconditionally) and once more when player 1 starts ball 2; the "done this game" flag
+    # belongs to the second reset only: it is set nowhere else, so the game-start reset cannot use it up
+    F = "self.reset_pricing_tier_count_this_game"
+    rp = cr.methods["_reset_pricing_tier_credits"]
+    chk.analysed(rp)
+    callers = sorted(m.name for m in cr.methods.values() if any(call_attr(c) == "_reset_pricing_tier_credits" for c in m.calls()))
+    chk.ob("FLAG-20", "the once-per-game tier reset is requested only when a ball starts", callers == ["_ball_starting"], rp.where(), detail=str(callers),
+           construct=rp.ident, text="once-per-game reset callers %s" % callers)
+    bs_ = cr.methods["_ball_starting"]
+    bc = bs_.cfg()
+    calls_ = [n for n, c in bc.calls_named("_reset_pricing_tier_credits")]
+    from sa.cfg import canon_set, canon_fact
+    ok = len(calls_) == 1 and set(canon_set(bc.guards_at(calls_[0].id))) == {canon_fact("player == 1", True), canon_fact("ball == 2", True)}
+    chk.ob("FLAG-20", "it is requested exactly when player 1 starts ball 2", ok, bs_.where(), construct=bs_.ident, text="ball 2 reset guard")
+    sets_true = [(m.name, x) for m in cr.methods.values() for x in walk_local(m.node) if isinstance(x, ast.Assign) and src(x.targets[0]) == F and src(x.value) == "True"]
+    chk.ob("FLAG-20", "the flag is raised only by the once-per-game reset itself", [m for m, _ in sets_true] == ["_reset_pricing_tier_credits"], rp.where(),
+           detail=str([m for m, _ in sets_true]), construct=rp.ident, text="flag raised in %s" % [m for m, _ in sets_true])
+    gs_ = cr.methods["_game_started"]
+    z = [x for x in walk_local(gs_.node) if isinstance(x, ast.Assign) and src(x.targets[0]) == "self.credit_units_for_pricing_tiers" and src(x.value) == "0"]
+    gc_ = gs_.cfg()
+    zn = [n for n in gc_.nodes if n.kind == "stmt" and z and n.ast is z[0]]
+    ok = len(z) == 1 and bool(zn) and not gc_.guards_at(zn[0].id) and F not in src(gs_.node)
+    chk.ob("FLAG-20", "a game start restarts the tier progress unconditionally and leaves the once-per-game flag alone", ok, gs_.where(), construct=gs_.ident,
+           text="game start tier reset")
+    ge_ = [m for m in cr.methods.values() if any(isinstance(x, ast.Assign) and src(x.targets[0]) == F and src(x.value) == "False" for x in walk_local(m.node))]
+    chk.ob("FLAG-20", "the flag is lowered again when the game ends", any(m.name in ("_game_ended", "_game_stopped") for m in ge_), rp.where(),
+           detail=str([m.name for m in ge_]), construct=rp.ident, text="flag lowered")
 
     # ------------------------------------------------------------ TIER-1: the tier loop adds, it never replaces
     # per added unit: the progress counter moves by one, the bonus the table gives for that progress is *added* to the total, the counter
@@ -405,6 +445,8 @@ def battery():
         M("twin: clamp via min()", CR, "            if self.credit_unit > price_per_game:\n                self.credit_unit = price_per_game\n", "            self.credit_unit = min(self.credit_unit, price_per_game)\n", None),
         M("tier bonus replaces the balance", CR, "                total_credit_units += bonus_credit_units", "                total_credit_units = bonus_credit_units", "TIER-1"),
         M("tier progress stuck at one", CR, "                self.credit_units_for_pricing_tiers += 1\n                bonus_credit_units", "                self.credit_units_for_pricing_tiers = 1\n                bonus_credit_units", "TIER-1"),
+        M("game start uses up the once-per-game tier reset", CR, "        # pricing tiers will restart when the game starts\n        self.credit_units_for_pricing_tiers = 0", "        # pricing tiers will restart when the game starts\n        self._reset_pricing_tier_credits()", "FLAG-20"),
+        M("expiry periods run from the first coin", CR, "            self.delay.reset(\n                ms=self.credits_config['fractional_credit_expiration_time'],", "            self.delay.add_if_doesnt_exist(\n                ms=self.credits_config['fractional_credit_expiration_time'],", "UNIT-7"),
     ]
 
 
